@@ -83,6 +83,8 @@ func (st *state) dispatch(toks []string) (string, string) {
 		return st.apiOp(toks)
 	case "frag":
 		return fragOp(toks), ""
+	case "pschema", "penc", "pdec":
+		return patchWireOp(toks), ""
 	case "ll":
 		return llOp(toks), ""
 	case "wr":
@@ -91,7 +93,7 @@ func (st *state) dispatch(toks []string) (string, string) {
 		return floatOp(toks), ""
 	case "geo":
 		return geoOp(toks), ""
-	case "watch", "feed", "replicate", "watchp", "feedp", "watchx", "unwatchx":
+	case "watch", "feed", "feedw", "replicate", "watchp", "feedp", "watchx", "unwatchx":
 		now := time.Now().UnixMilli()
 		return st.feedOp(toks), fmt.Sprintf(" now=%d", now)
 	case "stress":
